@@ -44,7 +44,7 @@ FromInt(n) == IF n >= 0 THEN FromNat(n) ELSE Neg(FromNat(0 - n))
 
 (* limbs -> native integer; only meaningful when the value fits in 31 bits *)
 FitsSmall(a) == \/ (a[3] = 0 /\ a[4] = 0 /\ a[2] < B15)
-                \/ (a[3] = 65535 /\ a[4] = 65535 /\ a[2] >= B15)
+                \/ (a[3] = 65535 /\ a[4] = 65535 /\ a[2] >= B15 /\ ~(a[2] = B15 /\ a[1] = 0))   \* -2^31 itself does not fit TLC's negation
 ToInt(a) == IF IsNeg(a) THEN 0 - (Neg(a)[1] + B16 * Neg(a)[2]) ELSE a[1] + B16 * a[2]
 
 (* ---- comparisons -------------------------------------------------------------------------------- *)
